@@ -6,6 +6,7 @@ package main
 
 import (
 	"math/rand"
+	"sort"
 	"strings"
 
 )
@@ -59,6 +60,86 @@ func init() {
 		case "rogue":
 			r, in := al.SimulateRogue(parseFrac(p[0]), parseFrac(p[1]))
 			return encRows(rowsOf(al)) + " " + strJoin(r) + " " + strJoin(in)
+		case "support":
+			// `K` independent runs after one rand.Seed: which admissible outcomes were reached.
+			// Columns / rows of the input are distinct (the oracle checks), so an outcome is identified by content.
+			what, par, K := p[0], p[1], atoi(p[2])
+			in := rowsOf(al)
+			colOf := func(rows []Row, j int) string {
+				b := make([]byte, len(rows))
+				for i, r := range rows {
+					b[i] = r.Seq[j]
+				}
+				return string(b)
+			}
+			colIdx := map[string]int{}
+			for j := 0; j < al.Length(); j++ {
+				colIdx[colOf(in, j)] = j
+			}
+			rowIdx := map[string]int{}
+			for i, r := range in {
+				rowIdx[r.Name] = i
+			}
+			seen := map[string]bool{}
+			for k := 0; k < K; k++ {
+				switch what {
+				case "bootstrap":
+					o := rowsOf(al.BuildBootstrap(parseFrac(par)))
+					if len(o) > 0 {
+						for j := 0; j < len(o[0].Seq); j++ {
+							if x, ok := colIdx[colOf(o, j)]; ok {
+								seen[itoa(x)] = true
+							} else {
+								seen["foreign"] = true
+							}
+						}
+					}
+				case "sample":
+					sm, err := al.Sample(atoi(par))
+					if err != nil {
+						return "err"
+					}
+					for _, r := range rowsOf(sm) {
+						seen[itoa(rowIdx[r.Name])] = true
+					}
+				case "window", "columns":
+					sm, err := al.RandSubAlign(atoi(par), what == "window")
+					if err != nil {
+						return "err"
+					}
+					o := rowsOf(sm)
+					if len(o) > 0 && len(o[0].Seq) > 0 {
+						if what == "window" {
+							seen[itoa(colIdx[colOf(o, 0)])] = true
+						} else {
+							for j := 0; j < len(o[0].Seq); j++ {
+								seen[itoa(colIdx[colOf(o, j)])] = true
+							}
+						}
+					}
+				case "shuffle":
+					c, _ := al.Clone()
+					c.ShuffleSequences()
+					nm := ""
+					for _, r := range rowsOf(c) {
+						nm += itoa(rowIdx[r.Name])
+					}
+					seen[nm] = true
+				default:
+					return "bad-op"
+				}
+			}
+			keys := make([]string, 0, len(seen))
+			for k := range seen {
+				keys = append(keys, k)
+			}
+			sort.Slice(keys, func(i, j int) bool {
+				if len(keys[i]) != len(keys[j]) {
+					return len(keys[i]) < len(keys[j])
+				}
+				return keys[i] < keys[j]
+			})
+			return strJoin(keys)
 		case "twice":
 			// determinism: the same seed twice gives the same bytes (shuffle + bootstrap + mutate)
 			run := func() string {
